@@ -108,6 +108,51 @@ pub fn run(ctx: &Ctx) -> i32 {
         add(rel.rsplit('/').next().unwrap().to_string(), p, Signer::Foreign, &mut starts, &mut inits);
     }
 
+    // the same signatures in the older layouts rpm itself writes: header-only RSA / DSA tags, header+payload PGP tag,
+    // each alone, without the OpenPGP tag (derived by re-encoding the signature header; main header and payload untouched)
+    {
+        use base64::Engine;
+        use vlib::refhdr::{assemble, RawHeader, Val};
+        let reencode = |x: &[u8], edit: &dyn Fn(&mut Vec<(u32, Val)>)| -> Option<rpm::Package> {
+            let (lead, _, hdr, l) = scan(x)?;
+            let mut recs = crate::pkgtool::split(x)?.sig;
+            edit(&mut recs);
+            let (y, _) = assemble(&lead, &RawHeader::layout_region(62, &recs), 0, &hdr, &x[l.payload_off..]);
+            match parse_pkg(&y) {
+                Ok(Ok(p)) => Some(p),
+                _ => None,
+            }
+        };
+        let foreign: Vec<&str> = if ctx.thorough() { ASSETS.to_vec() } else { vec![ASSETS[2], ASSETS[5]] };
+        for rel in foreign {
+            let x = std::fs::read(ctx.asset(rel)).unwrap_or_else(|e| crate::ctx::machinery(&format!("{}: {}", rel, e)));
+            let short = rel.rsplit('/').next().unwrap();
+            for (what, drop) in [("header-only RSA/DSA tags alone", vec![1002u32, 1005, 278]), ("header+payload PGP/GPG tags alone", vec![268, 267, 278]), ("no signature tag at all", vec![268, 267, 1002, 1005, 278])] {
+                if let Some(p) = reencode(&x, &|r| r.retain(|(t, _)| !drop.contains(t))) {
+                    add(format!("{} [{}]", short, what), p, Signer::Foreign, &mut starts, &mut inits);
+                }
+            }
+        }
+        for (k, tag) in [(Key::Rsa4096, 268u32), (Key::Ed25519, 267)] {
+            let mut sp = crate::corpus::one_file();
+            sp.sign = Some(k);
+            let x = sp.build_bytes(&env).unwrap_or_else(|e| crate::ctx::machinery(&format!("legacy start: {}", e))).1;
+            let p = reencode(&x, &|r| {
+                let sig = r.iter().find(|(t, _)| *t == 278).and_then(|(_, v)| if let Val::StrArray(a) = v { a.first().cloned() } else { None });
+                if let Some(b64) = sig {
+                    if let Ok(raw) = base64::engine::general_purpose::STANDARD.decode(&b64) {
+                        r.retain(|(t, _)| *t != 278);
+                        r.push((tag, Val::Bin(raw)));
+                    }
+                }
+            });
+            match p {
+                Some(p) => add(format!("built-one-file signed by {} [signature moved to the header-only tag {}]", k.name(), tag), p, Signer::Ours(k), &mut starts, &mut inits),
+                None => crate::ctx::machinery("legacy-layout start package does not parse"),
+            }
+        }
+    }
+
     let max_depth = 6;
     let keys_ref = &keys;
     let protected_attempts = ctx.thorough();
@@ -285,7 +330,7 @@ pub fn run(ctx: &Ctx) -> i32 {
         "histories",
         "B",
         &format!(
-            "state graph of {{sign(k, t) for k ∈ {:?}, t ∈ {:?}; clear; write+parse; signing attempts that fail (signer returns an error / returns bytes that are no OpenPGP packet; thorough: protected key without / with a wrong passphrase)}} from {} start packages (built empty / with files / rich gzip{}; foreign assets); states = (bytes of the real package, in-memory vs re-parsed, reference last-signer), deduplicated by SHA-256 of the full byte image; invariant in every state: each of the 4 public keys verifies ⇔ it signed last, signature_key_ids() = [that key's id] (error when unsigned), digests verify, main header and payload byte-identical to the start package; a failed signing attempt leaves the bytes unchanged. Search ends at the fixpoint or at depth {}. non-trivial = state in which the invariant was evaluated",
+            "state graph of {{sign(k, t) for k ∈ {:?}, t ∈ {:?}; clear; write+parse; signing attempts that fail (signer returns an error / returns bytes that are no OpenPGP packet; thorough: protected key without / with a wrong passphrase)}} from {} start packages (built empty / with files / rich gzip{}; foreign assets as shipped and with each family of signature tags alone; library-signed packages re-encoded to the header-only RSA / DSA tag layout); states = (bytes of the real package, in-memory vs re-parsed, reference last-signer), deduplicated by SHA-256 of the full byte image; invariant in every state: each of the 4 public keys verifies ⇔ it signed last, signature_key_ids() = [that key's id] (error when unsigned), digests verify, main header and payload byte-identical to the start package; a failed signing attempt leaves the bytes unchanged. Search ends at the fixpoint or at depth {}. non-trivial = state in which the invariant was evaluated",
             keys.iter().map(|k| k.name()).collect::<Vec<_>>(), TIMES, starts.len(), if ctx.thorough() { " / sizes zstd / already signed" } else { "" }, max_depth
         ),
         acc,
